@@ -6,6 +6,7 @@ CONSTANTS
   MaxGets = 1
   InjLen = 0
   Wide = {"A"}
+  ChainSeq <- NoChain
   Emit = TRUE
 INVARIANTS StackEmptyWhenQuiet Precedence NoRecursion OnceBuilt LazyFactories
 VIEW View
